@@ -908,3 +908,39 @@ func (c *Ctx) NilGuardedUses(key, fname string, producer IM, min int, desc, why 
 	}
 	c.ok(key, rule, desc, n)
 }
+
+// EveryIteration: in fname, every iteration of the range loop whose iterator
+// renders as rangeRe performs an instruction matching effect (no path from the
+// loop's "has next" edge back to the loop header avoids it).
+func (c *Ctx) EveryIteration(key, fname, rangeRe string, effect IM, desc, why string) {
+	rule := "K3 After (every loop iteration)"
+	fn := c.F(fname)
+	if !c.need(key, rule, desc, fn, fname) {
+		return
+	}
+	g := G(`rangeok\(`+rangeRe+`\)`, true)
+	n, bad := 0, ""
+	for _, b := range fn.Blocks {
+		for i, sb := range b.Succs {
+			if !c.P.EdgeAsserts(Edge{b, i}, g) {
+				continue
+			}
+			n++
+			hdr := b
+			if f := (&Search{P: c.P, Fn: fn, Avoid: effect, Tgt: func(in ssa.Instruction) bool { return in.Block() == hdr }}).runFromBlock(sb); f != nil {
+				bad = "an iteration can return to the loop header without the effect; path " + c.P.TraceString(f.Trace)
+			}
+			if (&Search{P: c.P, Fn: fn, Tgt: effect}).runFromBlock(sb) == nil {
+				bad = "the effect is not inside the loop"
+			}
+		}
+	}
+	if bad != "" || n == 0 {
+		if bad == "" {
+			bad = "no range loop over " + rangeRe + " found"
+		}
+		c.fail(key, rule, desc, why, bad, n)
+		return
+	}
+	c.ok(key, rule, desc, n)
+}
